@@ -23,7 +23,7 @@ def mask(msg):
 def analyse(text, res, aliases, classes):
     """Returns dict(problems=[(class, detail)], pairs=n, kinds=set, accepted=bool)."""
     out = res.out
-    if "Did not compile successfully" in out + res.err and core.BANNER not in res.err and res.cls != "panic":
+    if core.compile_rejected(res):
         return {"accepted": False}
     if res.cls == "panic" and "@@RUN@@" not in out:
         # died inside the compiler: not an accepted program (C16's business)
